@@ -312,3 +312,72 @@ Theorem reentrant_delivery_conserves : forall n i hold react ops,
               (concat (gfired (asp_step i) (false, []) eff)).
 Proof. exact reentrant_gated_conserves. Qed.
 Print Assumptions reentrant_delivery_conserves.
+
+(* ------------------------------------------------------------------ *)
+(* The ticker (core/timex/ticker.go) and the values it delivers (Ticker.v). *)
+From GZ Require Import C12.Ticker C12.TickerProofs.
+
+(* The run loop drops the value it receives from ticker.Chan(): two histories that differ only
+   in the VALUES delivered by the ticker (the zero time, equal stamps, stamps going backwards or
+   jumping by thousands of intervals, wall-clock-only times: any Z) run the same callbacks at
+   every operation, return the same results and end in the same state - from every state. *)
+Theorem tick_stamp_irrelevant : forall a h1 h2,
+  map erase h1 = map erase h2 -> srun a h1 = srun a h2 /\ sfinal a h1 = sfinal a h2.
+Proof. exact stamps_irrelevant. Qed.
+Print Assumptions tick_stamp_irrelevant.
+
+(* in particular under every re-stamping of the ticks of a history *)
+Theorem restamped_history_runs_the_same : forall a f ops,
+  srun a (restamp f 0 ops) = srun a ops /\ sfinal a (restamp f 0 ops) = sfinal a ops.
+Proof. exact restamp_irrelevant. Qed.
+Print Assumptions restamped_history_runs_the_same.
+
+Theorem stamped_wheel_refines_due_map : forall n i ops,
+  1 <= n -> 1 <= i -> srun (ainit n i) ops = asp_run i (false, []) (map erase ops).
+Proof. exact stamped_refines_spec. Qed.
+Print Assumptions stamped_wheel_refines_due_map.
+
+(* "at the floor(d/interval)-th tick" counts the values RECEIVED from the ticker, whatever they are *)
+Theorem stamped_fires_exactly_at_due_tick : forall n i pre k v d a o v',
+  1 <= n -> 1 <= i -> i <= d ->
+  has_stop (map erase (pre ++ SCall (ASet (Some k) v d) :: a)) = false ->
+  forallb (fun o => negb (atouches k (erase o))) a = true -> atouches k (erase o) = false ->
+  In (k, v') (snd (fst (sstep (sfinal (ainit n i) (pre ++ SCall (ASet (Some k) v d) :: a)) o))) <->
+  (erase o = ATick /\ aticks (map erase a) + 1 = d / i /\ v' = v).
+Proof. exact stamped_set_fires_at_due. Qed.
+Print Assumptions stamped_fires_exactly_at_due_tick.
+
+(* non-vacuity: the history of seed C12-10 (one tick stamped five intervals late, then stamps one
+   interval apart, a zero stamp, a stamp in the past): the timer fires at the third received value *)
+Example ex_stamped :
+  map fst (srun (ainit 4 1000) [SCall (ASet (Some 1) 5 3000); STick 5000; STick 0; STick (-7000); STick 7000]) =
+  [[]; []; []; [(1, 5)]; []].
+Proof. vm_compute. reflexivity. Qed.
+
+(* timex.NewFakeTicker as a channel machine (buffer of one tick, Ticks blocked in the send,
+   blocked receivers, Stop = close, Done / Wait), every operation on a goroutine of its own, every
+   history: the ticks the channel accepted (Tick returned) are, in the same order, the ticks that
+   were received plus the at most one still buffered - none lost, none doubled, none invented. *)
+Theorem fake_ticker_delivers_exactly_once : forall ops,
+  let d := concat (frun finit 0 ops) in
+  accepted_of d = received_of d ++ fbuf (ffinal finit 0 ops) /\
+  (length (fbuf (ffinal finit 0 ops)) <= 1)%nat.
+Proof. exact fake_ticker_exactly_once. Qed.
+Print Assumptions fake_ticker_delivers_exactly_once.
+
+(* a real ticker (time.Ticker: one tick buffered, the rest dropped while the receiver is slow)
+   may lose ticks - the wheel is then late in wall-clock time, which the property does not speak
+   about - but what is received is a subsequence of what the runtime fired *)
+Theorem real_ticker_never_invents_ticks : forall ops,
+  subseq (rrecvd (mkR [] false) ops) (rfired ops).
+Proof. exact real_ticker_never_invents. Qed.
+Print Assumptions real_ticker_never_invents_ticks.
+
+Example ex_fake_ticker :
+  frun finit 0 [TkTick; TkTick; TkRecv; TkRecv; TkRecv; TkTick; TkStop; TkRecv; TkTick] =
+  [[(0, FSent)]; []; [(2, FGot 0); (1, FSent)]; [(3, FGot 1)]; []; [(4, FGot 5); (5, FSent)];
+   [(6, FReturned)]; [(7, FClosed)]; [(8, FPanicked)]].
+Proof. vm_compute. reflexivity. Qed.
+Example ex_real_ticker_drops :
+  rrecvd (mkR [] false) [RFire 1; RFire 2; RFire 3; RRecv; RRecv; RFire 4; RStop; RFire 5; RRecv; RRecv] = [1; 4].
+Proof. vm_compute. reflexivity. Qed.
